@@ -132,3 +132,191 @@ def check_attrs_initialised(ctx, rule, P, classes, consequence: str) -> None:
             "; ".join(f"`self.{a}` is read in {m}() (line {ln}) but never assigned in {c} or its bases" for a, m, ln in bad[:4]) + f": AttributeError the first time that statement runs — {consequence}",
             f"{ci.module.relpath}:{bad[0][2] if bad else ci.node.lineno}",
         )
+
+
+# ------------------------------------------------------------------------------------------------ final (write-once) fields
+def _attr_store_sites(P) -> dict[str, list[tuple[str, str]]]:
+    """attribute name -> [(class, method)] of every `<anything>.<attr> = ...` / augmented / del / setattr site in the program."""
+    cache = getattr(P, "_store_sites_cache", None)
+    if cache is not None:
+        return cache
+    out: dict[str, list[tuple[str, str]]] = {}
+    for m in P.modules.values():
+        for n in ast.walk(m.tree):
+            if isinstance(n, ast.ClassDef):
+                for f in n.body:
+                    if isinstance(f, (ast.FunctionDef, ast.AsyncFunctionDef)):
+                        for x in ast.walk(f):
+                            if isinstance(x, ast.Attribute) and isinstance(x.ctx, (ast.Store, ast.Del)):
+                                on_self = isinstance(x.value, ast.Name) and x.value.id == "self"
+                                out.setdefault(x.attr, []).append((n.name if on_self else "<other object>", f.name))
+                            elif isinstance(x, ast.Call) and isinstance(x.func, ast.Name) and x.func.id in ("setattr", "delattr") and len(x.args) >= 2:
+                                k = x.args[1].value if isinstance(x.args[1], ast.Constant) else "*"
+                                out.setdefault(k, []).append((n.name, f.name))
+        for n in m.tree.body:
+            if isinstance(n, (ast.FunctionDef, ast.AsyncFunctionDef)):
+                for x in ast.walk(n):
+                    if isinstance(x, ast.Attribute) and isinstance(x.ctx, (ast.Store, ast.Del)):
+                        out.setdefault(x.attr, []).append(("<module>", n.name))
+    P._store_sites_cache = out
+    return out
+
+
+def _init_store(P, clsname: str, attr: str):
+    """(class, value expr, __init__ node) if `attr` is stored exactly once in the whole program, by a top-level statement of an
+    __init__ of a class in the MRO of clsname (a write-once field); None otherwise."""
+    sites = _attr_store_sites(P)
+    if "*" in sites:
+        return None
+    # stores through `self` in unrelated classes concern other objects; a store through any other receiver may concern this class
+    family = set(P.mro(clsname)) | set(P.subclasses(clsname))
+    ss = [x for x in sites.get(attr, []) if x[0] in family or x[0] in ("<other object>", "<module>")]
+    if len(ss) != 1 or ss[0][1] != "__init__" or ss[0][0] not in P.mro(clsname):
+        return None
+    ci = P.classes.get(ss[0][0])
+    init = ci.methods.get("__init__") if ci else None
+    if init is None or init.variants:
+        return None
+    for st in init.node.body:  # top level only: unconditional
+        tgt = val = None
+        if isinstance(st, ast.Assign) and len(st.targets) == 1:
+            tgt, val = st.targets[0], st.value
+        elif isinstance(st, ast.AnnAssign) and st.value is not None:
+            tgt, val = st.target, st.value
+        if isinstance(tgt, ast.Attribute) and tgt.attr == attr and isinstance(tgt.value, ast.Name) and tgt.value.id == "self":
+            return ss[0][0], val, init.node
+    return None
+
+
+def _stable_read(P, clsname: str, attr: str, depth: int = 0) -> bool:
+    """Reading `<instance of clsname>.<attr>` yields the same value for the life of the object: a write-once field holding a
+    parameter / constant, or a read-only property returning such a field."""
+    if depth > 3 or clsname not in P.classes:
+        return False
+    fi = P.find_method(clsname, attr)
+    if fi is not None:
+        if not any(isinstance(d, ast.Name) and d.id == "property" for d in fi.node.decorator_list) or fi.variants:
+            return False
+        if any(c.methods.get(attr) is not fi for c in (P.classes[s] for s in P.subclasses(clsname)) if attr in c.methods):
+            return False  # overridden somewhere below
+        body = [b for b in fi.node.body if not (isinstance(b, ast.Expr) and isinstance(b.value, ast.Constant))]
+        if len(body) == 1 and isinstance(body[0], ast.Return) and isinstance(body[0].value, ast.Attribute) and isinstance(body[0].value.value, ast.Name) and body[0].value.value.id == "self":
+            return _stable_read(P, clsname, body[0].value.attr, depth + 1)
+        return False
+    got = _init_store(P, clsname, attr)
+    if got is None:
+        return False
+    _, val, init = got
+    params = {a.arg for a in init.args.posonlyargs + init.args.args + init.args.kwonlyargs}
+    # the stored value is a parameter (possibly normalised by a pure conversion) or a constant: nothing that can change later
+    if isinstance(val, ast.Constant):
+        return True
+    if isinstance(val, ast.Name) and val.id in params:
+        return True
+    if isinstance(val, ast.IfExp) or (isinstance(val, ast.Call) and isinstance(val.func, ast.Name) and val.func.id in ("str", "bytes", "int", "bool", "tuple", "frozenset")):
+        return all(isinstance(n, (ast.Name, ast.Constant, ast.IfExp, ast.Call, ast.Load, ast.Compare, ast.Is, ast.IsNot, ast.Eq, ast.NotEq)) and (not isinstance(n, ast.Call) or (isinstance(n.func, ast.Name) and n.func.id in ("str", "bytes", "int", "bool", "tuple", "frozenset", "isinstance"))) for n in ast.walk(val))
+    return False
+
+
+def final_field_terms(P, clsname: str) -> dict[str, ast.expr]:
+    """Write-once fields of the class whose value is a *derived, stable* expression, with that expression spelled over `self`:
+
+        self._keep_bytes = isinstance(watch.path, bytes)      (in __init__, where also self._watch = watch, once)
+            ->  {"_keep_bytes": isinstance(self._watch.path, bytes)}
+
+    Conditions: the field is stored once in the whole program, unconditionally in an __init__ of the class's MRO; the expression is
+    built from constants, isinstance / comparison / boolean operators / not, and attribute chains rooted at an __init__ parameter
+    that is itself kept in a write-once field, every link of the chain being a stable read of the (annotated) class.  A read of
+    such a field anywhere in the class means what the expression means, so rules see through the cache."""
+    cache = P.__dict__.setdefault("_final_terms_cache", {})
+    if clsname in cache:
+        return cache[clsname]
+    out: dict[str, ast.expr] = {}
+    cache[clsname] = out
+    if clsname not in P.classes:
+        return out
+    cand = set()
+    for c in P.mro(clsname):
+        ci = P.classes.get(c)
+        init = ci.methods.get("__init__") if ci else None
+        if init is None:
+            continue
+        for st in init.node.body:
+            tgt = st.targets[0] if isinstance(st, ast.Assign) and len(st.targets) == 1 else (st.target if isinstance(st, ast.AnnAssign) else None)
+            if isinstance(tgt, ast.Attribute) and isinstance(tgt.value, ast.Name) and tgt.value.id == "self":
+                cand.add(tgt.attr)
+    for attr in sorted(cand):
+        got = _init_store(P, clsname, attr)
+        if got is None:
+            continue
+        owner, val, init = got
+        if isinstance(val, (ast.Name, ast.Constant)):
+            continue  # plain copies are not caches of anything
+        ptypes = {a.arg: P.type_of_annotation(a.annotation) if a.annotation is not None else None for a in init.args.posonlyargs + init.args.args + init.args.kwonlyargs}
+
+        def param_field(pn: str) -> str | None:
+            """the write-once field (anywhere in the MRO) that keeps the constructor argument `pn`"""
+            for c in P.mro(clsname):
+                ci = P.classes.get(c)
+                i2 = ci.methods.get("__init__") if ci else None
+                if i2 is None or pn not in {a.arg for a in i2.node.args.posonlyargs + i2.node.args.args + i2.node.args.kwonlyargs}:
+                    continue
+                for st in i2.node.body:
+                    if isinstance(st, ast.Assign) and len(st.targets) == 1 and isinstance(st.value, ast.Name) and st.value.id == pn:
+                        t = st.targets[0]
+                        if isinstance(t, ast.Attribute) and isinstance(t.value, ast.Name) and t.value.id == "self" and _init_store(P, clsname, t.attr) is not None:
+                            return t.attr
+            return None
+
+        ok = True
+
+        def conv(n: ast.expr) -> ast.expr | None:
+            nonlocal ok
+            if isinstance(n, ast.Constant):
+                return n
+            if isinstance(n, ast.Attribute):
+                chain, cur = [], n
+                while isinstance(cur, ast.Attribute):
+                    chain.append(cur.attr)
+                    cur = cur.value
+                if not (isinstance(cur, ast.Name) and cur.id in ptypes):
+                    ok = False
+                    return None
+                fld, t = param_field(cur.id), ptypes[cur.id]
+                if fld is None or t is None:
+                    ok = False
+                    return None
+                res: ast.expr = ast.Attribute(ast.Name("self", ast.Load()), fld, ast.Load())
+                for a in reversed(chain):
+                    if not _stable_read(P, t, a):
+                        ok = False
+                        return None
+                    res = ast.Attribute(res, a, ast.Load())
+                    t = P.attr_types(t).get(a) if t in P.classes else None
+                    if t is None and a is not chain[0]:
+                        ok = False
+                        return None
+                return res
+            if isinstance(n, ast.Call) and isinstance(n.func, ast.Name) and n.func.id == "isinstance" and len(n.args) == 2 and not n.keywords:
+                a0 = conv(n.args[0])
+                if a0 is None or not all(isinstance(x, (ast.Name, ast.Tuple, ast.Load, ast.Attribute)) for x in ast.walk(n.args[1])):
+                    ok = False
+                    return None
+                return ast.Call(n.func, [a0, n.args[1]], [])
+            if isinstance(n, ast.UnaryOp) and isinstance(n.op, ast.Not):
+                v = conv(n.operand)
+                return ast.UnaryOp(n.op, v) if v is not None else None
+            if isinstance(n, ast.BoolOp):
+                vs = [conv(v) for v in n.values]
+                return ast.BoolOp(n.op, vs) if all(v is not None for v in vs) else None
+            if isinstance(n, ast.Compare):
+                l_ = conv(n.left)
+                cs = [conv(c) for c in n.comparators]
+                return ast.Compare(l_, n.ops, cs) if l_ is not None and all(c is not None for c in cs) else None
+            ok = False
+            return None
+
+        term = conv(val)
+        if ok and term is not None:
+            out[attr] = ast.fix_missing_locations(term)
+    return out
